@@ -1,8 +1,23 @@
 (* C19Run.v — executable verdicts for C19.  The four analyses are compared between their two entry-point families by
    the harness (projection named by the property); the redirect chain reported by the crate is compared with the loop
    model of RIO.Analyses run on the one-hop table (obtained from the crate itself with max_hops = 1). *)
-Require Import RIO.Base RIO.Analyses.
+Require Import RIO.Base RIO.Analyses RIO.Headers RIO.BodyText RIO.ActionModel RIO.Pipeline RIO.C05Run.
 Open Scope N_scope.
+
+(* one response reported by an analysis (explain for the example of the case, impact for each example of the analysed
+   rule), with the rules the router matched for that example (as Action::from_routes_rule receives them, translated to
+   the rule record of RIO.ActionModel; HTML body filters are dropped and the body is then not compared) *)
+Record pipe19 := {
+  p_rules : list rule; p_skipped : option str; p_code : option N;     (* example.response_status_code *)
+  p_lower : list (str * str); p_body_cmp : bool;
+  p_status : N; p_backend : N; p_headers : list header; p_body : str; p_log : bool
+}.
+
+(* the model of the analysis (RIO.Pipeline.analysis_of_rules) reproduces the reported response *)
+Definition pipe_ok (table : list (str * hkind)) (skeleton : str) (p : pipe19) : bool :=
+  let r := analysis_of_rules (lower_of (p_lower p)) table (p_rules p) (p_skipped p) None (p_code p) skeleton in
+  N.eqb (rs_status r) (p_status p) && N.eqb (rs_backend r) (p_backend p) && headers_eqb (rs_headers r) (p_headers p)
+  && (negb (p_body_cmp p) || str_eqb (rs_body r) (p_body p)) && Bool.eqb (rs_log r) (p_log p).
 
 Record case19 := {
   k_tests_same : bool;      (* TestExamplesOutput: from_project = create_result_without_project *)
@@ -10,6 +25,7 @@ Record case19 := {
   k_explain_same : bool;    (* ExplainRequestOutput *)
   k_impact_same : bool;     (* ImpactOutput *)
   k_pipeline_same : bool;   (* response reported by explain = the live pipeline replayed by the harness on a rebuilt router *)
+  k_pipes : list pipe19;    (* the reported responses with the matched rules, for the pipeline model *)
   k_has_chain : bool;
   k_max : N;                (* max_hops *)
   k_table : list (N * option (N * N) * bool * bool);   (* node, one hop (target, status), target outside the project domains, self loop *)
@@ -52,8 +68,9 @@ Definition chain_ok (c : case19) : bool :=
      | [] => false
      end.
 
-Definition verdict19 (c : case19) : N :=
-  (vbit (negb (k_has_chain c) || (let '(h, e) := model_chain c in hops_eqb h (o_hops c) && N.eqb (err_code e) (o_err c))) 1
+Definition verdict19 (table : list (str * hkind)) (skeleton : str) (c : case19) : N :=
+  (vbit ((negb (k_has_chain c) || (let '(h, e) := model_chain c in hops_eqb h (o_hops c) && N.eqb (err_code e) (o_err c)))
+         && forallb (pipe_ok table skeleton) (k_pipes c)) 1
    + vbit (k_tests_same c && k_units_same c && k_explain_same c && k_impact_same c && k_pipeline_same c && (negb (k_has_chain c) || chain_ok c)) 4)%N.
 
 Definition spec_verdict19 (c : case19) : N :=
